@@ -19,13 +19,14 @@ from fsx.core import D, F
 ID = 'C10'
 LEVEL = 'model_checking'
 USES_BATCH = True
-RULE = ('(a) every token sequence of length 1..3 (thorough: 4) over a 44-token alphabet and of length 4 (thorough: 5) over a 16-token core over a 44-token alphabet of '
-        'keywords, operators incl. an unknown one, brackets, quotes incl. unterminated, numbers, columns, functions, globs, '
-        'paths, date, options - each as separate argv words and joined into one word; (b) all single-token deletions, '
-        'duplications, transpositions and truncations of ~200 valid queries + malformations labelled by construction '
+RULE = ('(a) every token sequence of length 1..3 (thorough: 4) over a 44-token alphabet of keywords, operators incl. an unknown '
+        'one, brackets, quotes incl. unterminated, numbers, columns, functions, globs, paths, a date, options, and of length 4 '
+        '(thorough: 5) over a 16-token core - each as separate argv words and joined into one word; (b) all single-token '
+        'deletions, duplications, transpositions and truncations of ~200 valid queries + malformations labelled by construction '
         '(unbalanced bracket, dangling/unknown operator, ORDER BY position out of range or misplaced, non-numeric LIMIT, '
-        'unknown format, no column, uninterpretable regex/date/boolean/function argument); (c) every scalar function x '
-        'argument-kind vectors of arity 0..3; (d) argv flags of main. non-trivial = the run did not end with status 0')
+        'unknown format, no column, uninterpretable regex/date/boolean/function argument, also after the same text was used '
+        'by another operator); (c) every scalar function x argument-kind vectors of arity 0..3; (d) argv flags of main. '
+        'non-trivial = the run did not end with status 0')
 MC_NOTE = ('states = token sequences explored breadth-first by length, transitions = append-token edges; every state is '
            'executed on the real parser/searcher (batch hook = the crate\'s own exec_search) and every flagged state plus a '
            'deterministic stratum is re-validated on the fresh CLI binary')
